@@ -283,6 +283,7 @@ theorem Ev.mono {s s' : Streams} (h : Ev s s') : Mono s s' := by
     split
     · next s1 id heq => rw [heq] at this; exact this.trans (Mono.incNumSendStreams _ _)
     · next s1 heq => rw [heq] at this; exact this
+  | acceptFlag k v => exact Mono.modStream _ k _ (fun _ h => h) (fun _ => rfl)
   | queuePP k pk pid fields _ => exact Mono.modStream _ k _ (fun _ h => h) (fun _ => rfl)
   | ppAct id pk pid fields rest pushed _ _ =>
     rename_i s0 _ _
